@@ -192,14 +192,17 @@ def run(spec, report, tier, depth, state_budget, time_budget):
                     frontier.append(tuple(root))
             level = 0
             capped = False
-            while frontier and level < depth:
+            cfg_depth = cfg.get("depth", depth)
+            while frontier and level < cfg_depth:
                 if len(seen) >= per_cfg_budget or time.time() - cfg_start > per_cfg_time:
                     capped = True
                     break
-                chunks = _chunk(frontier, NPROC * 4)
+                chunks = _chunk(frontier, NPROC * 16)
                 tasks = [(cfg_idx, cfg, ch, True, True) for ch in chunks]
                 nxt = []
-                for _, out, st in pool.imap(_expand, tasks):
+                partial = False
+                it = pool.imap(_expand, tasks)
+                for _, out, st in it:
                     stats.update(st)
                     for hist, row, at_viols in out:
                         report.add_all(at_viols)
@@ -209,6 +212,17 @@ def run(spec, report, tier, depth, state_budget, time_budget):
                             if key not in seen:
                                 seen.add(key)
                                 nxt.append(hist + (spec.alphabet(cfg)[idx],))
+                    if time.time() - cfg_start > 3 * per_cfg_time:
+                        # hard stop inside a level: the level is reported as partially expanded
+                        partial = True
+                        break
+                if partial:
+                    pool.terminate()
+                    pool.join()
+                    pool = ctx.Pool(NPROC)
+                    caps.append(f"{name}: wall-time cap hit while expanding depth {level + 1}: that level is only partially expanded ({len(seen)} states seen)")
+                    frontier = []
+                    break
                 frontier = nxt
                 level += 1
             if capped:
